@@ -12,6 +12,10 @@ CHECKS = {
    technique="bounded exhaustive enumeration of operation programs with close/reopen on the real database against a BTreeMap reference model",
    text="Every program up to the stated depth mixing writes, batches, transaction commits, clear, bulk ingestion (also over existing keys), rotation, every queued worker message in every order, journal rotation, major compaction and up to three close/reopen cycles is executed on the real code under several configurations and start states; every state reached through a reopen must show exactly the model content through every read method (point reads and scans included) and the same keyspace set.",
    note="Bounded depth/alphabet as reported in the evidence; clean close only (crash images are C02's). Two signatures of one genuine defect (ingested tombstone + compaction + reopen) are listed in known_findings.txt."),
+ "C03": dict(level="fault_enumeration", engine="E2-crashcheck (byte cuts)", design="§4, §6 C03",
+   technique="exhaustive enumeration of every byte offset at which the journal of a real write history can end (EOF and zero-padded), recovery by the real code compared with a prefix model",
+   text="For each batch/transaction shape (1..6 items, one and two keyspaces, tombstones, clears, empty values, values on both sides of the compression threshold with Lz4 and None, transactions overwriting one key several times, consecutive batches) the journal produced by the real write path is cut at every byte offset, once ending there and once zero-padded to its preallocated size (which also covers every split point of every write() call); the real recovery must yield exactly the batches that end at or before the cut, never a partial batch, and a batch appended to the repaired journal must be recovered by the next reopen.",
+   note="The image is the OS view of the files while the database is open (process crash). Garbage tails are out of scope of the property. Large records are cut at every byte only in the thorough tier (quick: edges + 32 payload offsets + buffer boundaries)."),
 }
 
 NOT_YET = {
